@@ -90,6 +90,14 @@ func checkC13(c *Check) {
 							case *ssa.MakeInterface, *ssa.ChangeInterface:
 								c.Bad(p.FuncKey(fn)+":embedded-writer-escapes", p.Pos(ref.Pos()), "the embedded http.ResponseWriter value is converted and may escape")
 							case *ssa.Return, *ssa.Store:
+								if _, isRet := y.(*ssa.Return); isRet && isStdUnwrap(fn) {
+									// the one named exception: net/http's rwUnwrapper convention, `Unwrap() http.ResponseWriter`.
+									// http.ResponseController consults it only for what the wrapper does not implement itself
+									// (deadlines, full duplex); a handler calling it leaves the wrapper on purpose, and what it
+									// then does to the raw writer is not an operation on this response writer.
+									c.OK(p.FuncKey(fn)+":unwrap-convention", p.Pos(ref.Pos()), "Unwrap() returns the underlying writer and does nothing else (net/http's ResponseController convention)", numInstrs(fn))
+									continue
+								}
 								c.Bad(p.FuncKey(fn)+":embedded-writer-escapes", p.Pos(ref.Pos()), "the embedded http.ResponseWriter value escapes")
 							}
 						}
@@ -664,4 +672,26 @@ func isEmptyFreshSlice(v ssa.Value) bool {
 		}
 	}
 	return false
+}
+
+// isStdUnwrap: fn is exactly `func (w *responseWriter) Unwrap() http.ResponseWriter { return w.ResponseWriter }`:
+// that name and signature, one block, no call, no store.
+func isStdUnwrap(fn *ssa.Function) bool {
+	if fn.Name() != "Unwrap" || fn.Signature.Recv() == nil || fn.Signature.Params().Len() != 0 || fn.Signature.Results().Len() != 1 {
+		return false
+	}
+	if fn.Signature.Results().At(0).Type().String() != "net/http.ResponseWriter" {
+		return false
+	}
+	if len(fn.Blocks) != 1 {
+		return false
+	}
+	ok := true
+	allInstrs(fn, func(in ssa.Instruction) {
+		switch in.(type) {
+		case ssa.CallInstruction, *ssa.Store, *ssa.MapUpdate, *ssa.Send:
+			ok = false
+		}
+	})
+	return ok
 }
